@@ -54,6 +54,8 @@ struct Scenario {
 	bool readlink_fail = false;
 	bool stdin_closed = false;      // the driver is started without descriptor 0 (cproc ... <&-)
 	bool sigchld_ignored = false;   // the driver inherits SIGCHLD = SIG_IGN: the kernel reaps children itself, wait() ends with ECHILD
+	int sigterm_inherited = 0;      // 1: the driver inherits SIGTERM = SIG_IGN (trap '' TERM; cproc ...), 2: SIGTERM blocked in the inherited mask
+	bool stdin_stays_open = false;  // standard input is a terminal nobody types on: after stdin_units a read blocks for ever instead of seeing EOF
 	int stray_exit_step = -1;                 // -1: no stray child
 	int stray_status = 0;
 	int pipe_cap = 2;
